@@ -11,8 +11,8 @@ from __future__ import annotations
 import copy
 import time
 
-MAX_EXEC = 400
-MAX_WALL = 30.0
+MAX_EXEC = 600
+MAX_WALL = 45.0
 
 
 def _sig(res: dict) -> str | None:
@@ -117,6 +117,74 @@ def minimise_ops(engine, v: dict, in_child, ops_key: str = "ops") -> dict:
                     best = cand
                     best_res = r
                     best["decisions"] = r.get("decisions", best.get("decisions"))
+
+    # 2b. shrink template sources (programs, partials, parsed steps): drop markup chunks
+    def src_slots(p):
+        out = []
+        for i, pr in enumerate(p.get("programs") or []):
+            out.append(("programs", i, "src"))
+        for k in list((p.get("partials") or {})):
+            out.append(("partials", k, None))
+        for i, st in enumerate(p.get(ops_key) or []):
+            if isinstance(st, dict) and isinstance(st.get("src"), str) and st.get("prog") == "gen":
+                out.append((ops_key, i, "src"))
+        for ei, e in enumerate(p.get("envs") or []):
+            for k in list((e.get("partials") or {})):
+                out.append(("envs", ei, ("partials", k)))
+        return out
+
+    def get_src(p, slot):
+        a, b, c = slot
+        if a == "partials":
+            return p["partials"][b]
+        if a == "envs":
+            return p["envs"][b][c[0]][c[1]]
+        return p[a][b][c]
+
+    def set_src(p, slot, v):
+        a, b, c = slot
+        if a == "partials":
+            p["partials"][b] = v
+        elif a == "envs":
+            p["envs"][b][c[0]][c[1]] = v
+        else:
+            p[a][b][c] = v
+
+    import re as _re
+    chunk_re = _re.compile(r"(\{%.*?%\}|\{\{.*?\}\}|\{#.*?#\})", _re.S)
+    for slot in src_slots(best):
+        if n_exec >= MAX_EXEC or time.monotonic() - t0 > MAX_WALL:
+            break
+        try:
+            src = get_src(best, slot)
+        except (KeyError, IndexError, TypeError):
+            continue
+        parts = [x for x in chunk_re.split(src) if x != ""]
+        if len(parts) < 2:
+            continue
+        size = max(1, len(parts) // 2)
+        while size >= 1 and len(parts) > 1:
+            i = 0
+            progressed = False
+            while i < len(parts):
+                cand_parts = parts[:i] + parts[i + size:]
+                cand = copy.deepcopy(best)
+                set_src(cand, slot, "".join(cand_parts))
+                r = still_fails(cand)
+                if r is None and (n_exec >= MAX_EXEC or time.monotonic() - t0 > MAX_WALL):
+                    break
+                if r is not None:
+                    parts = cand_parts
+                    best = cand
+                    best_res = r
+                    best["decisions"] = r.get("decisions", best.get("decisions"))
+                    progressed = True
+                else:
+                    i += size
+            if n_exec >= MAX_EXEC or time.monotonic() - t0 > MAX_WALL:
+                break
+            if not progressed:
+                size //= 2
 
     # 3. prefer FIFO decisions, from the end backwards
     dec = best.get("decisions") or {}
